@@ -121,6 +121,17 @@ CLAIMED.update({
         ref="DESIGN.md 3/C11"),
 })
 
+CLAIMED.update({
+    "C04": dict(
+        text="Proof on the real Object.resolve (own scope wins; import target for aliases; only NameResolutionError and only at the top scope; the enclosing class's own "
+             "name short-cut only for non-module parents; otherwise the parent scope's answer for the same name), Function.resolve (__init__ parameter form), "
+             "ExprName.canonical_path (never raises, bare name when unbound, segment-by-segment attribute chains), Visitor.visit_import / visit_importfrom for an "
+             "arbitrary imported name (bound name, target path, import map, self-import / submodule-import exceptions, runtime flag, span). "
+             "relative_to_absolute == importlib's _resolve_name is verified symbolically for levels 0..3 and nesting <= 3; agreement with CPython binding is a bounded native tier.",
+        note="Modular recursion on the parent scope; ast invariants (asname None or non-empty). Code that raises NameError in CPython (names of an enclosing class used in a nested class body) is outside the domain.",
+        ref="DESIGN.md 3/C04"),
+})
+
 NA_REASON = {
     "C17": "relates two whole-program analyses through CPython's run-time object model; a contract for the inspector would have to assume the very "
            "object model the property compares against, so no obligation over /repo code alone implies agreement (DESIGN.md section 4)",
